@@ -73,7 +73,9 @@ BS0 = ["DUP1 AND", "PUSH 0 ADD", "PUSH 1 MUL", "PUSH 0 MLOAD PUSH 0 MSTORE", "PU
        "PUSH 7 PUSH 5 SSTORE", "DUP1 POP PUSH 7 PUSH 5 SSTORE", "PUSH 7 PUSH 5 MSTORE DUP1 POP",
        # a load whose result reaches a later store of the same domain through another instruction, all operands from the
        # incoming stack: lower position bounds along order tuples, tight length bound and one step of slack
-       "SLOAD ADD PUSH 7 SSTORE", "SLOAD ADD PUSH 7 SSTORE DUP1 POP", "MLOAD ADD PUSH 7 MSTORE"]
+       "SLOAD ADD PUSH 7 SSTORE", "SLOAD ADD PUSH 7 SSTORE DUP1 POP", "MLOAD ADD PUSH 7 MSTORE",
+       # a constant of five and of eight bytes needed twice: the soft weights of wide pushes under the size criterion
+       "PUSH ffffffffff PUSH ffffffffff", "PUSH ffffffffffffffff PUSH ffffffffffffffff ADD"]
 
 
 def small_blocks(tier, seed):
